@@ -26,7 +26,7 @@ Proof. intro H. unfold buf_get_u16. destruct (buf_get_bytes_ok 2 off buf H) as [
 Lemma buf_get_u32_total off buf : (off + 4 <= length buf)%nat -> is_total (buf_get_u32 off buf).
 Proof. intro H. unfold buf_get_u32. destruct (buf_get_bytes_ok 4 off buf H) as [bs ->]. eexists; reflexivity. Qed.
 
-Lemma buf_read_total off buf : (off < length buf)%nat -> is_total (buf_read off buf).
+Lemma buf_read_total off buf : (off < length buf)%nat -> is_total (pv_buf_read off buf).
 Proof. apply buf_read_lt. Qed.
 
 Ltac mins := unfold ipv4_min, ipv6_min, udp_min, tcp_min, icmp_min, icmp_error_min in *.
@@ -34,40 +34,40 @@ Ltac mins := unfold ipv4_min, ipv6_min, udp_min, tcp_min, icmp_min, icmp_error_m
 (* a byte read followed by pure arithmetic *)
 Ltac reads :=
   repeat match goal with
-         | |- context [buf_read ?k ?buf] =>
+         | |- context [pv_buf_read ?k ?buf] =>
            let b := fresh "b" in destruct (buf_read_lt buf k) as [b ->]; [mins; lia|]; cbn [bind]
          end.
 Ltac done_total := eexists; reflexivity.
 
 (* ---------------- Ipv4Packet (minimum 20) ---------------- *)
-Lemma ipv4_get_version_total buf : (ipv4_min <= length buf)%nat -> is_total (ipv4_get_version buf).
-Proof. intro H. unfold ipv4_get_version. reads. done_total. Qed.
-Lemma ipv4_get_header_length_total buf : (ipv4_min <= length buf)%nat -> is_total (ipv4_get_header_length buf).
-Proof. intro H. unfold ipv4_get_header_length. reads. done_total. Qed.
-Lemma ipv4_get_dscp_total buf : (ipv4_min <= length buf)%nat -> is_total (ipv4_get_dscp buf).
-Proof. intro H. unfold ipv4_get_dscp. reads. done_total. Qed.
-Lemma ipv4_get_ecn_total buf : (ipv4_min <= length buf)%nat -> is_total (ipv4_get_ecn buf).
-Proof. intro H. unfold ipv4_get_ecn. reads. done_total. Qed.
-Lemma ipv4_get_tos_total buf : (ipv4_min <= length buf)%nat -> is_total (ipv4_get_tos buf).
-Proof. intro H. unfold ipv4_get_tos, ipv4_get_dscp, ipv4_get_ecn. reads. done_total. Qed.
-Lemma ipv4_get_total_length_total buf : (ipv4_min <= length buf)%nat -> is_total (ipv4_get_total_length buf).
+Lemma ipv4_get_version_total buf : (ipv4_min <= length buf)%nat -> is_total (pv_ipv4_get_version buf).
+Proof. intro H. unfold pv_ipv4_get_version. reads. done_total. Qed.
+Lemma ipv4_get_header_length_total buf : (ipv4_min <= length buf)%nat -> is_total (pv_ipv4_get_header_length buf).
+Proof. intro H. unfold pv_ipv4_get_header_length. reads. done_total. Qed.
+Lemma ipv4_get_dscp_total buf : (ipv4_min <= length buf)%nat -> is_total (pv_ipv4_get_dscp buf).
+Proof. intro H. unfold pv_ipv4_get_dscp. reads. done_total. Qed.
+Lemma ipv4_get_ecn_total buf : (ipv4_min <= length buf)%nat -> is_total (pv_ipv4_get_ecn buf).
+Proof. intro H. unfold pv_ipv4_get_ecn. reads. done_total. Qed.
+Lemma ipv4_get_tos_total buf : (ipv4_min <= length buf)%nat -> is_total (pv_ipv4_get_tos buf).
+Proof. intro H. unfold pv_ipv4_get_tos, pv_ipv4_get_dscp, pv_ipv4_get_ecn. reads. done_total. Qed.
+Lemma ipv4_get_total_length_total buf : (ipv4_min <= length buf)%nat -> is_total (pv_ipv4_get_total_length buf).
 Proof. intro H. apply buf_get_u16_total. mins. lia. Qed.
-Lemma ipv4_get_identification_total buf : (ipv4_min <= length buf)%nat -> is_total (ipv4_get_identification buf).
+Lemma ipv4_get_identification_total buf : (ipv4_min <= length buf)%nat -> is_total (pv_ipv4_get_identification buf).
 Proof. intro H. apply buf_get_u16_total. mins. lia. Qed.
-Lemma ipv4_get_flags_and_fragment_offset_total buf : (ipv4_min <= length buf)%nat -> is_total (ipv4_get_flags_and_fragment_offset buf).
+Lemma ipv4_get_flags_and_fragment_offset_total buf : (ipv4_min <= length buf)%nat -> is_total (pv_ipv4_get_flags_and_fragment_offset buf).
 Proof. intro H. apply buf_get_u16_total. mins. lia. Qed.
-Lemma ipv4_get_ttl_total buf : (ipv4_min <= length buf)%nat -> is_total (ipv4_get_ttl buf).
+Lemma ipv4_get_ttl_total buf : (ipv4_min <= length buf)%nat -> is_total (pv_ipv4_get_ttl buf).
 Proof. intro H. apply buf_read_total. mins. lia. Qed.
-Lemma ipv4_get_protocol_total buf : (ipv4_min <= length buf)%nat -> is_total (ipv4_get_protocol buf).
+Lemma ipv4_get_protocol_total buf : (ipv4_min <= length buf)%nat -> is_total (pv_ipv4_get_protocol buf).
 Proof. intro H. apply buf_read_total. mins. lia. Qed.
-Lemma ipv4_get_checksum_total buf : (ipv4_min <= length buf)%nat -> is_total (ipv4_get_checksum buf).
+Lemma ipv4_get_checksum_total buf : (ipv4_min <= length buf)%nat -> is_total (pv_ipv4_get_checksum buf).
 Proof. intro H. apply buf_get_u16_total. mins. lia. Qed.
-Lemma ipv4_get_source_total buf : (ipv4_min <= length buf)%nat -> is_total (ipv4_get_source buf).
+Lemma ipv4_get_source_total buf : (ipv4_min <= length buf)%nat -> is_total (pv_ipv4_get_source buf).
 Proof. intro H. apply buf_get_bytes_ok. mins. lia. Qed.
-Lemma ipv4_get_destination_total buf : (ipv4_min <= length buf)%nat -> is_total (ipv4_get_destination buf).
+Lemma ipv4_get_destination_total buf : (ipv4_min <= length buf)%nat -> is_total (pv_ipv4_get_destination buf).
 Proof. intro H. apply buf_get_bytes_ok. mins. lia. Qed.
-Lemma ipv4_options_length_total buf : (ipv4_min <= length buf)%nat -> is_total (ipv4_options_length buf).
-Proof. intro H. unfold ipv4_options_length, ipv4_get_header_length. reads. done_total. Qed.
+Lemma ipv4_options_length_total buf : (ipv4_min <= length buf)%nat -> is_total (pv_ipv4_options_length buf).
+Proof. intro H. unfold pv_ipv4_options_length, pv_ipv4_get_header_length. reads. done_total. Qed.
 Lemma ipv4_get_options_raw_total buf : (ipv4_min <= length buf)%nat -> is_total (ipv4_get_options_raw buf).
 Proof.
   intro H. unfold ipv4_get_options_raw. destruct (ipv4_options_length_total buf H) as [ol ->]. cbn [bind].
@@ -81,21 +81,21 @@ Proof.
 Qed.
 
 (* ---------------- Ipv6Packet (minimum 40) ---------------- *)
-Lemma ipv6_get_version_total buf : (ipv6_min <= length buf)%nat -> is_total (ipv6_get_version buf).
-Proof. intro H. unfold ipv6_get_version. reads. done_total. Qed.
-Lemma ipv6_get_traffic_class_total buf : (ipv6_min <= length buf)%nat -> is_total (ipv6_get_traffic_class buf).
-Proof. intro H. unfold ipv6_get_traffic_class. reads. done_total. Qed.
-Lemma ipv6_get_flow_label_total buf : (ipv6_min <= length buf)%nat -> is_total (ipv6_get_flow_label buf).
-Proof. intro H. unfold ipv6_get_flow_label. reads. done_total. Qed.
-Lemma ipv6_get_payload_length_total buf : (ipv6_min <= length buf)%nat -> is_total (ipv6_get_payload_length buf).
+Lemma ipv6_get_version_total buf : (ipv6_min <= length buf)%nat -> is_total (pv_ipv6_get_version buf).
+Proof. intro H. unfold pv_ipv6_get_version. reads. done_total. Qed.
+Lemma ipv6_get_traffic_class_total buf : (ipv6_min <= length buf)%nat -> is_total (pv_ipv6_get_traffic_class buf).
+Proof. intro H. unfold pv_ipv6_get_traffic_class. reads. done_total. Qed.
+Lemma ipv6_get_flow_label_total buf : (ipv6_min <= length buf)%nat -> is_total (pv_ipv6_get_flow_label buf).
+Proof. intro H. unfold pv_ipv6_get_flow_label. reads. done_total. Qed.
+Lemma ipv6_get_payload_length_total buf : (ipv6_min <= length buf)%nat -> is_total (pv_ipv6_get_payload_length buf).
 Proof. intro H. apply buf_get_u16_total. mins. lia. Qed.
-Lemma ipv6_get_next_header_total buf : (ipv6_min <= length buf)%nat -> is_total (ipv6_get_next_header buf).
+Lemma ipv6_get_next_header_total buf : (ipv6_min <= length buf)%nat -> is_total (pv_ipv6_get_next_header buf).
 Proof. intro H. apply buf_read_total. mins. lia. Qed.
-Lemma ipv6_get_hop_limit_total buf : (ipv6_min <= length buf)%nat -> is_total (ipv6_get_hop_limit buf).
+Lemma ipv6_get_hop_limit_total buf : (ipv6_min <= length buf)%nat -> is_total (pv_ipv6_get_hop_limit buf).
 Proof. intro H. apply buf_read_total. mins. lia. Qed.
-Lemma ipv6_get_source_address_total buf : (ipv6_min <= length buf)%nat -> is_total (ipv6_get_source_address buf).
+Lemma ipv6_get_source_address_total buf : (ipv6_min <= length buf)%nat -> is_total (pv_ipv6_get_source_address buf).
 Proof. intro H. apply buf_get_bytes_ok. mins. lia. Qed.
-Lemma ipv6_get_destination_address_total buf : (ipv6_min <= length buf)%nat -> is_total (ipv6_get_destination_address buf).
+Lemma ipv6_get_destination_address_total buf : (ipv6_min <= length buf)%nat -> is_total (pv_ipv6_get_destination_address buf).
 Proof. intro H. apply buf_get_bytes_ok. mins. lia. Qed.
 Lemma ipv6_payload_total buf : (ipv6_min <= length buf)%nat -> is_total (ipv6_payload buf).
 Proof.
@@ -104,37 +104,37 @@ Proof.
 Qed.
 
 (* ---------------- UdpPacket (minimum 8) ---------------- *)
-Lemma udp_get_source_total buf : (udp_min <= length buf)%nat -> is_total (udp_get_source buf).
+Lemma udp_get_source_total buf : (udp_min <= length buf)%nat -> is_total (pv_udp_get_source buf).
 Proof. intro H. apply buf_get_u16_total. mins. lia. Qed.
-Lemma udp_get_destination_total buf : (udp_min <= length buf)%nat -> is_total (udp_get_destination buf).
+Lemma udp_get_destination_total buf : (udp_min <= length buf)%nat -> is_total (pv_udp_get_destination buf).
 Proof. intro H. apply buf_get_u16_total. mins. lia. Qed.
-Lemma udp_get_length_total buf : (udp_min <= length buf)%nat -> is_total (udp_get_length buf).
+Lemma udp_get_length_total buf : (udp_min <= length buf)%nat -> is_total (pv_udp_get_length buf).
 Proof. intro H. apply buf_get_u16_total. mins. lia. Qed.
-Lemma udp_get_checksum_total buf : (udp_min <= length buf)%nat -> is_total (udp_get_checksum buf).
+Lemma udp_get_checksum_total buf : (udp_min <= length buf)%nat -> is_total (pv_udp_get_checksum buf).
 Proof. intro H. apply buf_get_u16_total. mins. lia. Qed.
-Lemma udp_payload_total buf : (udp_min <= length buf)%nat -> is_total (udp_payload buf).
-Proof. intro H. unfold udp_payload. mins. rewrite slice_from_ok by lia. done_total. Qed.
+Lemma udp_payload_total buf : (udp_min <= length buf)%nat -> is_total (pv_udp_payload buf).
+Proof. intro H. unfold pv_udp_payload. mins. rewrite slice_from_ok by lia. done_total. Qed.
 
 (* ---------------- TcpPacket (minimum 20) ---------------- *)
-Lemma tcp_get_source_total buf : (tcp_min <= length buf)%nat -> is_total (tcp_get_source buf).
+Lemma tcp_get_source_total buf : (tcp_min <= length buf)%nat -> is_total (pv_tcp_get_source buf).
 Proof. intro H. apply buf_get_u16_total. mins. lia. Qed.
-Lemma tcp_get_destination_total buf : (tcp_min <= length buf)%nat -> is_total (tcp_get_destination buf).
+Lemma tcp_get_destination_total buf : (tcp_min <= length buf)%nat -> is_total (pv_tcp_get_destination buf).
 Proof. intro H. apply buf_get_u16_total. mins. lia. Qed.
-Lemma tcp_get_sequence_total buf : (tcp_min <= length buf)%nat -> is_total (tcp_get_sequence buf).
+Lemma tcp_get_sequence_total buf : (tcp_min <= length buf)%nat -> is_total (pv_tcp_get_sequence buf).
 Proof. intro H. apply buf_get_u32_total. mins. lia. Qed.
-Lemma tcp_get_acknowledgement_total buf : (tcp_min <= length buf)%nat -> is_total (tcp_get_acknowledgement buf).
+Lemma tcp_get_acknowledgement_total buf : (tcp_min <= length buf)%nat -> is_total (pv_tcp_get_acknowledgement buf).
 Proof. intro H. apply buf_get_u32_total. mins. lia. Qed.
-Lemma tcp_get_data_offset_total buf : (tcp_min <= length buf)%nat -> is_total (tcp_get_data_offset buf).
-Proof. intro H. unfold tcp_get_data_offset. reads. done_total. Qed.
-Lemma tcp_get_reserved_total buf : (tcp_min <= length buf)%nat -> is_total (tcp_get_reserved buf).
-Proof. intro H. unfold tcp_get_reserved. reads. done_total. Qed.
-Lemma tcp_get_flags_total buf : (tcp_min <= length buf)%nat -> is_total (tcp_get_flags buf).
-Proof. intro H. unfold tcp_get_flags. reads. done_total. Qed.
-Lemma tcp_get_window_size_total buf : (tcp_min <= length buf)%nat -> is_total (tcp_get_window_size buf).
+Lemma tcp_get_data_offset_total buf : (tcp_min <= length buf)%nat -> is_total (pv_tcp_get_data_offset buf).
+Proof. intro H. unfold pv_tcp_get_data_offset. reads. done_total. Qed.
+Lemma tcp_get_reserved_total buf : (tcp_min <= length buf)%nat -> is_total (pv_tcp_get_reserved buf).
+Proof. intro H. unfold pv_tcp_get_reserved. reads. done_total. Qed.
+Lemma tcp_get_flags_total buf : (tcp_min <= length buf)%nat -> is_total (pv_tcp_get_flags buf).
+Proof. intro H. unfold pv_tcp_get_flags. reads. done_total. Qed.
+Lemma tcp_get_window_size_total buf : (tcp_min <= length buf)%nat -> is_total (pv_tcp_get_window_size buf).
 Proof. intro H. apply buf_get_u16_total. mins. lia. Qed.
-Lemma tcp_get_checksum_total buf : (tcp_min <= length buf)%nat -> is_total (tcp_get_checksum buf).
+Lemma tcp_get_checksum_total buf : (tcp_min <= length buf)%nat -> is_total (pv_tcp_get_checksum buf).
 Proof. intro H. apply buf_get_u16_total. mins. lia. Qed.
-Lemma tcp_get_urgent_pointer_total buf : (tcp_min <= length buf)%nat -> is_total (tcp_get_urgent_pointer buf).
+Lemma tcp_get_urgent_pointer_total buf : (tcp_min <= length buf)%nat -> is_total (pv_tcp_get_urgent_pointer buf).
 Proof. intro H. apply buf_get_u16_total. mins. lia. Qed.
 (* the data-offset arithmetic `data_offset * 4 - 20` is only evaluated when data_offset > 5: no underflow *)
 Lemma tcp_options_length_total buf : (tcp_min <= length buf)%nat -> is_total (tcp_options_length buf).
@@ -202,13 +202,13 @@ Lemma extension_object_payload_total buf : (4 <= length buf)%nat -> is_total (ex
 Proof. apply object_payload_ok. Qed.
 Lemma mpls_label_stack_members_total buf : is_total (mpls_label_stack_members buf).
 Proof. destruct (members_total buf) as (items & H & _). exists items. exact H. Qed.
-Lemma mpls_member_get_label_total buf : (4 <= length buf)%nat -> is_total (mpls_member_get_label buf).
-Proof. intro H. unfold mpls_member_get_label. reads. done_total. Qed.
-Lemma mpls_member_get_exp_total buf : (4 <= length buf)%nat -> is_total (mpls_member_get_exp buf).
-Proof. intro H. unfold mpls_member_get_exp. reads. done_total. Qed.
-Lemma mpls_member_get_bos_total buf : (4 <= length buf)%nat -> is_total (mpls_member_get_bos buf).
-Proof. intro H. unfold mpls_member_get_bos. reads. done_total. Qed.
-Lemma mpls_member_get_ttl_total buf : (4 <= length buf)%nat -> is_total (mpls_member_get_ttl buf).
+Lemma mpls_member_get_label_total buf : (4 <= length buf)%nat -> is_total (pv_mpls_member_get_label buf).
+Proof. intro H. unfold pv_mpls_member_get_label. reads. done_total. Qed.
+Lemma mpls_member_get_exp_total buf : (4 <= length buf)%nat -> is_total (pv_mpls_member_get_exp buf).
+Proof. intro H. unfold pv_mpls_member_get_exp. reads. done_total. Qed.
+Lemma mpls_member_get_bos_total buf : (4 <= length buf)%nat -> is_total (pv_mpls_member_get_bos buf).
+Proof. intro H. unfold pv_mpls_member_get_bos. reads. done_total. Qed.
+Lemma mpls_member_get_ttl_total buf : (4 <= length buf)%nat -> is_total (pv_mpls_member_get_ttl buf).
 Proof. intro H. apply buf_read_total. lia. Qed.
 
 (* ---------------- the table: every accessor of every view ---------------- *)
@@ -237,45 +237,45 @@ Ltac acc_total H :=
   lazymatch goal with
   | |- is_total (extensions_objects _) => apply extensions_objects_total
   | |- is_total (mpls_label_stack_members _) => apply mpls_label_stack_members_total
-  | |- is_total (ipv4_get_version _) => apply ipv4_get_version_total; exact H
-  | |- is_total (ipv4_get_header_length _) => apply ipv4_get_header_length_total; exact H
-  | |- is_total (ipv4_get_dscp _) => apply ipv4_get_dscp_total; exact H
-  | |- is_total (ipv4_get_ecn _) => apply ipv4_get_ecn_total; exact H
-  | |- is_total (ipv4_get_tos _) => apply ipv4_get_tos_total; exact H
-  | |- is_total (ipv4_get_total_length _) => apply ipv4_get_total_length_total; exact H
-  | |- is_total (ipv4_get_identification _) => apply ipv4_get_identification_total; exact H
-  | |- is_total (ipv4_get_flags_and_fragment_offset _) => apply ipv4_get_flags_and_fragment_offset_total; exact H
-  | |- is_total (ipv4_get_ttl _) => apply ipv4_get_ttl_total; exact H
-  | |- is_total (ipv4_get_protocol _) => apply ipv4_get_protocol_total; exact H
-  | |- is_total (ipv4_get_checksum _) => apply ipv4_get_checksum_total; exact H
-  | |- is_total (ipv4_get_source _) => apply ipv4_get_source_total; exact H
-  | |- is_total (ipv4_get_destination _) => apply ipv4_get_destination_total; exact H
+  | |- is_total (pv_ipv4_get_version _) => apply ipv4_get_version_total; exact H
+  | |- is_total (pv_ipv4_get_header_length _) => apply ipv4_get_header_length_total; exact H
+  | |- is_total (pv_ipv4_get_dscp _) => apply ipv4_get_dscp_total; exact H
+  | |- is_total (pv_ipv4_get_ecn _) => apply ipv4_get_ecn_total; exact H
+  | |- is_total (pv_ipv4_get_tos _) => apply ipv4_get_tos_total; exact H
+  | |- is_total (pv_ipv4_get_total_length _) => apply ipv4_get_total_length_total; exact H
+  | |- is_total (pv_ipv4_get_identification _) => apply ipv4_get_identification_total; exact H
+  | |- is_total (pv_ipv4_get_flags_and_fragment_offset _) => apply ipv4_get_flags_and_fragment_offset_total; exact H
+  | |- is_total (pv_ipv4_get_ttl _) => apply ipv4_get_ttl_total; exact H
+  | |- is_total (pv_ipv4_get_protocol _) => apply ipv4_get_protocol_total; exact H
+  | |- is_total (pv_ipv4_get_checksum _) => apply ipv4_get_checksum_total; exact H
+  | |- is_total (pv_ipv4_get_source _) => apply ipv4_get_source_total; exact H
+  | |- is_total (pv_ipv4_get_destination _) => apply ipv4_get_destination_total; exact H
   | |- is_total (ipv4_get_options_raw _) => apply ipv4_get_options_raw_total; exact H
   | |- is_total (ipv4_payload _) => apply ipv4_payload_total; exact H
-  | |- is_total (ipv6_get_version _) => apply ipv6_get_version_total; exact H
-  | |- is_total (ipv6_get_traffic_class _) => apply ipv6_get_traffic_class_total; exact H
-  | |- is_total (ipv6_get_flow_label _) => apply ipv6_get_flow_label_total; exact H
-  | |- is_total (ipv6_get_payload_length _) => apply ipv6_get_payload_length_total; exact H
-  | |- is_total (ipv6_get_next_header _) => apply ipv6_get_next_header_total; exact H
-  | |- is_total (ipv6_get_hop_limit _) => apply ipv6_get_hop_limit_total; exact H
-  | |- is_total (ipv6_get_source_address _) => apply ipv6_get_source_address_total; exact H
-  | |- is_total (ipv6_get_destination_address _) => apply ipv6_get_destination_address_total; exact H
+  | |- is_total (pv_ipv6_get_version _) => apply ipv6_get_version_total; exact H
+  | |- is_total (pv_ipv6_get_traffic_class _) => apply ipv6_get_traffic_class_total; exact H
+  | |- is_total (pv_ipv6_get_flow_label _) => apply ipv6_get_flow_label_total; exact H
+  | |- is_total (pv_ipv6_get_payload_length _) => apply ipv6_get_payload_length_total; exact H
+  | |- is_total (pv_ipv6_get_next_header _) => apply ipv6_get_next_header_total; exact H
+  | |- is_total (pv_ipv6_get_hop_limit _) => apply ipv6_get_hop_limit_total; exact H
+  | |- is_total (pv_ipv6_get_source_address _) => apply ipv6_get_source_address_total; exact H
+  | |- is_total (pv_ipv6_get_destination_address _) => apply ipv6_get_destination_address_total; exact H
   | |- is_total (ipv6_payload _) => apply ipv6_payload_total; exact H
-  | |- is_total (udp_get_source _) => apply udp_get_source_total; exact H
-  | |- is_total (udp_get_destination _) => apply udp_get_destination_total; exact H
-  | |- is_total (udp_get_length _) => apply udp_get_length_total; exact H
-  | |- is_total (udp_get_checksum _) => apply udp_get_checksum_total; exact H
-  | |- is_total (udp_payload _) => apply udp_payload_total; exact H
-  | |- is_total (tcp_get_source _) => apply tcp_get_source_total; exact H
-  | |- is_total (tcp_get_destination _) => apply tcp_get_destination_total; exact H
-  | |- is_total (tcp_get_sequence _) => apply tcp_get_sequence_total; exact H
-  | |- is_total (tcp_get_acknowledgement _) => apply tcp_get_acknowledgement_total; exact H
-  | |- is_total (tcp_get_data_offset _) => apply tcp_get_data_offset_total; exact H
-  | |- is_total (tcp_get_reserved _) => apply tcp_get_reserved_total; exact H
-  | |- is_total (tcp_get_flags _) => apply tcp_get_flags_total; exact H
-  | |- is_total (tcp_get_window_size _) => apply tcp_get_window_size_total; exact H
-  | |- is_total (tcp_get_checksum _) => apply tcp_get_checksum_total; exact H
-  | |- is_total (tcp_get_urgent_pointer _) => apply tcp_get_urgent_pointer_total; exact H
+  | |- is_total (pv_udp_get_source _) => apply udp_get_source_total; exact H
+  | |- is_total (pv_udp_get_destination _) => apply udp_get_destination_total; exact H
+  | |- is_total (pv_udp_get_length _) => apply udp_get_length_total; exact H
+  | |- is_total (pv_udp_get_checksum _) => apply udp_get_checksum_total; exact H
+  | |- is_total (pv_udp_payload _) => apply udp_payload_total; exact H
+  | |- is_total (pv_tcp_get_source _) => apply tcp_get_source_total; exact H
+  | |- is_total (pv_tcp_get_destination _) => apply tcp_get_destination_total; exact H
+  | |- is_total (pv_tcp_get_sequence _) => apply tcp_get_sequence_total; exact H
+  | |- is_total (pv_tcp_get_acknowledgement _) => apply tcp_get_acknowledgement_total; exact H
+  | |- is_total (pv_tcp_get_data_offset _) => apply tcp_get_data_offset_total; exact H
+  | |- is_total (pv_tcp_get_reserved _) => apply tcp_get_reserved_total; exact H
+  | |- is_total (pv_tcp_get_flags _) => apply tcp_get_flags_total; exact H
+  | |- is_total (pv_tcp_get_window_size _) => apply tcp_get_window_size_total; exact H
+  | |- is_total (pv_tcp_get_checksum _) => apply tcp_get_checksum_total; exact H
+  | |- is_total (pv_tcp_get_urgent_pointer _) => apply tcp_get_urgent_pointer_total; exact H
   | |- is_total (tcp_get_options_raw _) => apply tcp_get_options_raw_total; exact H
   | |- is_total (tcp_payload _) => apply tcp_payload_total; exact H
   | |- is_total (echo_get_identifier _) => apply echo_get_identifier_total; exact H
@@ -293,10 +293,10 @@ Ltac acc_total H :=
   | |- is_total (extension_object_get_class_num _) => apply extension_object_get_class_num_total; exact H
   | |- is_total (extension_object_get_class_subtype _) => apply extension_object_get_class_subtype_total; exact H
   | |- is_total (extension_object_payload _) => apply extension_object_payload_total; exact H
-  | |- is_total (mpls_member_get_label _) => apply mpls_member_get_label_total; exact H
-  | |- is_total (mpls_member_get_exp _) => apply mpls_member_get_exp_total; exact H
-  | |- is_total (mpls_member_get_bos _) => apply mpls_member_get_bos_total; exact H
-  | |- is_total (mpls_member_get_ttl _) => apply mpls_member_get_ttl_total; exact H
+  | |- is_total (pv_mpls_member_get_label _) => apply mpls_member_get_label_total; exact H
+  | |- is_total (pv_mpls_member_get_exp _) => apply mpls_member_get_exp_total; exact H
+  | |- is_total (pv_mpls_member_get_bos _) => apply mpls_member_get_bos_total; exact H
+  | |- is_total (pv_mpls_member_get_ttl _) => apply mpls_member_get_ttl_total; exact H
   end.
 
 (* for every packet view and every non-mutating accessor: length buf >= min -> the accessor returns a value *)
